@@ -34,8 +34,11 @@ def run(prog: Program, res: Result, tier: str) -> None:
     k = prog.func(KMOD, "fold")
     verdict, why = kernelspec.compare(k)
     if verdict == "incomparable":
-        raise AnalysisError(f"kernel fold cannot be compared with its reference definition: {why[0]}")
-    (res.ok if verdict == "same" else res.bad)("R1", k, k.node, ("; ".join(why))[:700], construct="fold", key="fold")
+        # undecided for the kernel as a whole: the callers' rules below still run, and what they find is reported first (an
+        # analysis error - exit 2 - only if they find nothing)
+        res.dep_errors.append(f"kernel fold cannot be compared with its reference definition: {why[0]}")
+    else:
+        (res.ok if verdict == "same" else res.bad)("R1", k, k.node, ("; ".join(why))[:700], construct="fold", key="fold")
     # fold must not be compiled parallel with a prange over samples (cells are shared): C19 would flag; note only
 
     # ---- Filterbank.fold ----------------------------------------------------------------------
